@@ -41,3 +41,18 @@ Definition w_forged_frame_bad : ffframe := mkFrame [mkFPeer 4 0] 41 0 [(0, [mkFP
 (* kind insider.shrinks-set-to-itself: validator 0, KNOWN to the node, ships the set {0} signed by itself *)
 Definition w_insider_block : ffblock := mkBlock 9 4 (Some [0]) 42 [mkSig 0 0 false 1].
 Definition w_insider_frame : ffframe := mkFrame [mkFPeer 0 0] 42 1 [(0, w_set4)].
+
+(* kind byzantine.quorum-signs.*: validators 1, 2, 3 - KNOWN to the node, more than a third of the set -
+   sign a frame that Hashgraph.Reset cannot insert (ff_reset = 0) *)
+Definition w_byz_frame : ffframe := mkFrame w_set4 43 0 [(0, w_set4)].
+Definition w_byz_block : ffblock :=
+  mkBlock 5 6 (Some [0; 1; 2; 3]) 43 [mkSig 1 0 false 1; mkSig 2 0 false 1; mkSig 3 0 false 1].
+Definition w_byz : ffresp := mkResp w_byz_block w_byz_frame 8.
+
+(* liveness: after a join the set is {0,1,2,3,4}; the anchor block carries TrustCount+1 = 3 signatures
+   {2,3,4}; a node that only knows the genesis set {0,1,2,3} counts 2 known signers and refuses, a
+   node with the current peers.json accepts *)
+Definition w_set5 : list fpeer := [mkFPeer 0 0; mkFPeer 1 0; mkFPeer 2 0; mkFPeer 3 0; mkFPeer 4 0].
+Definition w_frame5 : ffframe := mkFrame w_set5 50 1 [(0, w_set4); (7, w_set5)].
+Definition w_block5 : ffblock :=
+  mkBlock 8 9 (Some [0; 1; 2; 3; 4]) 50 [mkSig 2 0 false 1; mkSig 3 0 false 1; mkSig 4 0 false 1].
